@@ -26,6 +26,7 @@ type vector struct {
 	Values  map[string][]string `json:"values"`
 	Choices []int               `json:"choices"`
 	Label   string              `json:"label"`
+	Known   []string            `json:"known_open"`
 }
 
 var (
@@ -119,6 +120,19 @@ func AssertKF(c bool, label string, kfID string, region bool) {
 	if !c {
 		fails = append(fails, label)
 	}
+}
+
+// KnownOpen (primitive) reports whether the finding id is listed as open in known_findings.json.
+// Harnesses use it to keep one open finding from masking another obligation's report.
+func KnownOpen(id string) bool {
+	if cur != nil {
+		for _, k := range cur.Known {
+			if k == id {
+				return true
+			}
+		}
+	}
+	return false
 }
 
 // Cover (primitive) is a reachability witness.
